@@ -103,3 +103,108 @@ pub(crate) fn any_nan(c: &Coor4D) -> bool {
 pub(crate) fn all_nan(c: &Coor4D) -> bool {
     c[0].is_nan() && c[1].is_nan() && c[2].is_nan() && c[3].is_nan()
 }
+
+// ---------------------------------------------------------------------------------------------
+// Parameter side tables: contracts of the ParsedParameters accessors.
+// One BTreeMap<&str,_> insert+lookup costs CBMC 20-60 s and several of them per harness do not finish;
+// operator harnesses therefore replace the accessors `boolean/real/series/natural/text` by these functions
+// through #[kani::stub]. Contract (proved for the real accessors in C12.K.accessor / C03.K.accessors):
+//   accessor(key) == what the constructor stored under `key`, Err(MissingParam)/false if nothing was stored.
+// The harness states what the constructor stores by filling the tables.
+// ---------------------------------------------------------------------------------------------
+pub(crate) const TS: usize = 6;
+pub(crate) static mut T_FLAG_KEYS: [&str; TS] = [""; TS];
+pub(crate) static mut T_FLAG_N: usize = 0;
+pub(crate) static mut T_REAL_KEYS: [&str; 12] = [""; 12];
+pub(crate) static mut T_REAL_VALS: [f64; 12] = [0.0; 12];
+pub(crate) static mut T_REAL_N: usize = 0;
+pub(crate) static mut T_SER_KEYS: [&str; TS] = [""; TS];
+pub(crate) static mut T_SER_VALS: [[f64; 8]; TS] = [[0.0; 8]; TS];
+pub(crate) static mut T_SER_LEN: [usize; TS] = [0; TS];
+pub(crate) static mut T_SER_N: usize = 0;
+pub(crate) static mut T_NAT_KEYS: [&str; TS] = [""; TS];
+pub(crate) static mut T_NAT_VALS: [usize; TS] = [0; TS];
+pub(crate) static mut T_NAT_N: usize = 0;
+
+pub(crate) fn t_flag(key: &'static str) {
+    unsafe {
+        T_FLAG_KEYS[T_FLAG_N] = key;
+        T_FLAG_N += 1;
+    }
+}
+pub(crate) fn t_real(key: &'static str, v: f64) {
+    unsafe {
+        T_REAL_KEYS[T_REAL_N] = key;
+        T_REAL_VALS[T_REAL_N] = v;
+        T_REAL_N += 1;
+    }
+}
+pub(crate) fn t_series(key: &'static str, v: &[f64]) {
+    unsafe {
+        T_SER_KEYS[T_SER_N] = key;
+        let mut i = 0;
+        while i < v.len() && i < 8 {
+            T_SER_VALS[T_SER_N][i] = v[i];
+            i += 1;
+        }
+        T_SER_LEN[T_SER_N] = v.len();
+        T_SER_N += 1;
+    }
+}
+pub(crate) fn t_natural(key: &'static str, v: usize) {
+    unsafe {
+        T_NAT_KEYS[T_NAT_N] = key;
+        T_NAT_VALS[T_NAT_N] = v;
+        T_NAT_N += 1;
+    }
+}
+
+pub(crate) fn stub_boolean(_p: &ParsedParameters, key: &str) -> bool {
+    unsafe {
+        let mut i = 0;
+        while i < T_FLAG_N {
+            if T_FLAG_KEYS[i] == key {
+                return true;
+            }
+            i += 1;
+        }
+    }
+    false
+}
+pub(crate) fn stub_real(_p: &ParsedParameters, key: &str) -> Result<f64, Error> {
+    unsafe {
+        let mut i = 0;
+        while i < T_REAL_N {
+            if T_REAL_KEYS[i] == key {
+                return Ok(T_REAL_VALS[i]);
+            }
+            i += 1;
+        }
+    }
+    Err(Error::General("missing parameter (side table)"))
+}
+pub(crate) fn stub_series<'a>(_p: &'a ParsedParameters, key: &str) -> Result<&'a [f64], Error> {
+    unsafe {
+        let mut i = 0;
+        while i < T_SER_N {
+            if T_SER_KEYS[i] == key {
+                let s: &'static [f64] = &T_SER_VALS[i][..T_SER_LEN[i]];
+                return Ok(s);
+            }
+            i += 1;
+        }
+    }
+    Err(Error::General("missing parameter (side table)"))
+}
+pub(crate) fn stub_natural(_p: &ParsedParameters, key: &str) -> Result<usize, Error> {
+    unsafe {
+        let mut i = 0;
+        while i < T_NAT_N {
+            if T_NAT_KEYS[i] == key {
+                return Ok(T_NAT_VALS[i]);
+            }
+            i += 1;
+        }
+    }
+    Err(Error::General("missing parameter (side table)"))
+}
